@@ -57,6 +57,8 @@ TxViol(e) ==
           \cup Check("C03", "wrapper-flags-integrity-pad-authcode", w.ok /\ w.enc = 1 /\ w.auth = 1 /\ w.ptype = 0 /\ Has(e, "authOK") /\ e.authOK)
           \cup Check("C03", "confidentiality-iv-ciphertext-pad", w.ok /\ p.ok /\ w.plen = 16 + Len(e.plain) /\ p.n = ConfPadLen(Len(p.msg)))
           \cup Check("C03", "inner-message-well-formed", mm.ok /\ mm.rsAddr = 32)
+          \cup Check("C06", "requester-is-remote-console-lun-0", mm.ok => (mm.rqLun = 0 /\ mm.rqAddr % 2 = 1))
+          \cup Check("C06", "responder-lun-as-specified", (mm.ok /\ Has(exp, "rslun")) => mm.rsLun = exp.rslun)
           \cup Check("C03", "iv-fresh", Len(e.raw) >= 32 /\ Sub(e.raw, 16, 32) \notin ivs)
   ELSE LET w == ParseWrapper(e.raw, 0) IN
        Check("C09", "sessionless-null-session", w.ok /\ w.sid = <<0, 0, 0, 0>> /\ w.seq = <<0, 0, 0, 0>> /\ w.auth = 0 /\ w.enc = 0)
@@ -89,8 +91,10 @@ RetViol(e) ==
                             \cup Check(x.prop, "fields-equal-reference-decoding-of-one-repository-state",
                                        (Has(e, "value") /\ Len(e.value) = Len(want) /\ \A i \in 1..Len(want) : e.value[i].k = want[i].k)
                                           => \A i \in 1..Len(want) : Agrees(e.value[i].v, want[i].v)))
+                 ELSE IF x.outcome = "noerror" THEN Check(x.prop, "succeeds-where-specification-has-a-result", ~e.err)
                  ELSE IF x.outcome = "float"
                  THEN Check(x.prop, "succeeds-where-specification-has-a-result", ~e.err)
+                      \cup (IF e.err THEN {} ELSE Check(x.prop, "value-equals-exact-evaluation-of-specified-formula", Has(e, "floatOK") /\ e.floatOK))
                  ELSE {})
                 \cup (IF Has(x, "reqs") THEN Check(x.prop, "requests-as-specified", reqs = x.reqs) ELSE {})
                 \cup (IF Has(x, "maxreqs") THEN Check(x.prop, "terminates-within-specified-requests", Len(reqs) <= x.maxreqs) ELSE {}))
